@@ -28,6 +28,8 @@ import ctu_names
 PID = "C22"
 KEY_NESTED = "nested-call-element"
 KEY_STATIC = "staticFunction-builddir"
+KEY_UNESC = "unescaped-function-id"
+KEY_LOSSY = "toxml-lossy-nonascii"
 
 
 def split_findings(fields):
@@ -104,11 +106,19 @@ def check(run, replay):
         x1_wp(run, model, vh, quick, rng, namesok)
 
     # ---- X2: the property on the real binary
-    x2(run, quick, rng, namesok)
+    ids_escaped = bool(names) and all(names[k] for k in ("e_callid", "e_ncmyid", "e_uumyid", "e_uuarg"))
+    x2(run, quick, rng, namesok, ids_escaped)
 
 
 def is_u(m):
     return m == [b"U"]
+
+
+def modelled(run, stream, diffs):
+    """drop the cases the model declares outside its fragment (answer U): counted in the distribution, never compared"""
+    keep = [d for d in diffs if not is_u(d[1])]
+    run.stream(stream)["disagreements"] -= len(diffs) - len(keep)
+    return keep
 
 
 def x1(run, model, vh, quick, rng):
@@ -124,20 +134,20 @@ def x1(run, model, vh, quick, rng):
     diffs = vlib.correspond(run, "tinyxml2 attribute decoding", model, [vh, "rawattr"], cases, tag="rawattr",
                             nontrivial=lambda c, m, i: c[0] if not is_u(m) and any(b in b"&\r\n" for b in c[0]) else None,
                             bucket=lambda c, m, i: "unmodelled" if is_u(m) else ("changed" if m != [c[0]] else "unchanged"))
-    report(run, "tinyxml2 attribute decoding", [d for d in diffs if not is_u(d[1])], "rawattr")
+    report(run, "tinyxml2 attribute decoding", modelled(run, "tinyxml2 attribute decoding", diffs), "rawattr")
 
     n = 2500 if quick else 100000
     cases = [G.gen_ctu_case(rng) for _ in range(n)]
     diffs = vlib.correspond(run, "CTU::FileInfo toString->loadFromXml", model, [vh, "ctu"], cases, tag="ctu",
                             nontrivial=lambda c, m, i: tuple(map(str, c)) if not is_u(m) and len(c) > 2 else None,
                             bucket=lambda c, m, i: "unmodelled" if is_u(m) else "fc%s,nc_in%s,nc_out%s" % (m[0].decode() if m else "?", nested_in(c), nested_out(m)))
-    report(run, "CTU::FileInfo toString->loadFromXml", [d for d in diffs if not is_u(d[1])], "ctu")
+    report(run, "CTU::FileInfo toString->loadFromXml", modelled(run, "CTU::FileInfo toString->loadFromXml", diffs), "ctu")
 
     cases = [G.gen_uu_case(rng) for _ in range(n)]
     diffs = vlib.correspond(run, "UnsafeUsage toString->loadUnsafeUsageListFromXml", model, [vh, "uu"], cases, tag="uu",
                             nontrivial=lambda c, m, i: tuple(map(str, c)) if not is_u(m) and c[0] != 0 else None,
                             bucket=lambda c, m, i: "unmodelled" if is_u(m) else "n%s" % c[0])
-    report(run, "UnsafeUsage toString->loadUnsafeUsageListFromXml", [d for d in diffs if not is_u(d[1])], "uu")
+    report(run, "UnsafeUsage toString->loadUnsafeUsageListFromXml", modelled(run, "UnsafeUsage toString->loadUnsafeUsageListFromXml", diffs), "uu")
 
 
 def nested_in(c):
@@ -167,12 +177,28 @@ def x1_wp(run, model, vh, quick, rng, namesok):
     cases = [c for p in pairs for c in p]
     _, mo, me = vlib.run_lines([model], [vlib.enc_case(["wp"] + c) for c in cases])
     _, io, ie = vlib.run_lines([vh, "wp"], [vlib.enc_case(c) for c in cases])
-    if len(mo) != len(cases) or len(io) != len(cases):
-        raise vlib.BuildError("wp stream: model %d / harness %d answers for %d cases: %s %s" % (len(mo), len(io), len(cases), me[-500:], ie[-500:]))
+    if len(mo) != len(cases):
+        raise vlib.BuildError("wp stream: model gave %d answers for %d cases: %s" % (len(mo), len(cases), me[-500:]))
+    if len(io) != len(cases):
+        # the implementation died: the case after the last answer is the input
+        # (stdout of the harness is buffered: look for the first case at or after the last answer on which it dies alone)
+        idx = min(len(io), len(cases) - 1)
+        for j in range(len(io), min(len(io) + 400, len(cases))):
+            _, o1, _ = vlib.run_lines([vh, "wp"], [vlib.enc_case(cases[j])])
+            if len(o1) != 1:
+                idx = j
+                break
+        c = cases[idx]
+        run.stream("analyseWholeProgram (null/uninit/bufferoverrun)")["disagreements"] += 1
+        run.violation("wp-died:" + hashlib.sha1(vlib.enc_case(c).encode()).hexdigest()[:12],
+                      "the implementation crashed in analyseWholeProgram (model answer: %s)" % str(vlib.show(vlib.dec_line(mo[idx])))[:200],
+                      {"case_line": vlib.enc_case(c), "case": vlib.show(c), "stderr": ie[-800:], "how": "echo <case_line> | build/harness/vh_c22 wp"})
+        return
     name = "analyseWholeProgram (null/uninit/bufferoverrun)"
     st = run.stream(name)
     bad = []
     prop_bad = []
+    unmodelled_pairs = 0
     for k in range(0, len(cases), 2):
         outs = []
         for j in (0, 1):
@@ -186,7 +212,9 @@ def x1_wp(run, model, vh, quick, rng, namesok):
             outs.append((c, m, i))
         # the property on the implementation: in-memory vs stored CTU summaries
         (c0, m0, i0), (c1, m1, i1) = outs
-        if i0 != i1:
+        if is_u(m0) or is_u(m1):
+            unmodelled_pairs += 1     # e.g. a '"' in an unescaped id: the text layer, see the witness-quote project
+        elif i0 != i1:
             prop_bad.append((c0, c1, i0, i1, (m0 == i0 and m1 == i1)))
     st["disagreements"] += len(bad)
     if len(run.samples) < 12 and cases:
@@ -194,6 +222,7 @@ def x1_wp(run, model, vh, quick, rng, namesok):
     report(run, name, bad, "wp")
     run.extra["harness_property_pairs"] = len(pairs)
     run.extra["harness_property_pairs_differing"] = len(prop_bad)
+    run.extra["harness_property_pairs_unmodelled"] = unmodelled_pairs
     for c0, c1, i0, i1, explained in sorted(prop_bad, key=lambda t: len(t[0]))[:3]:
         has_nested = nested_in(c0[5:]) != 0
         rep = {"stream": "harness: findings from in-memory vs stored-and-reloaded CTU summaries",
@@ -209,12 +238,13 @@ def x1_wp(run, model, vh, quick, rng, namesok):
                           "analyseWholeProgram gives different findings for in-memory and stored CTU summaries", rep)
 
 
-def x2(run, quick, rng, namesok):
+def x2(run, quick, rng, namesok, ids_escaped):
     name = "real binary: -j1 / -j1+builddir (fresh, cached) / -j2+builddir"
     n = 40 if quick else 1200
-    projects = [G.WITNESS] + [G.gen_project(rng) for _ in range(n)]
+    projects = [G.WITNESS, G.WITNESS_QUOTE, G.WITNESS_NONASCII] + [G.gen_project(rng) for _ in range(n)]
     seen = set()
     shown = 0
+    unexplained = [0]
     for pr in projects:
         res, _ = G.run_modes(vlib.CPPCHECK, pr)
         h = hashlib.sha1(repr(sorted(pr[0].items())).encode()).hexdigest()[:12]
@@ -223,7 +253,7 @@ def x2(run, quick, rng, namesok):
         differ = G.differs(res)
         st, rest = G.split_static(res)
         run.count(name, None, nontrivial=nt, bucket="%s,%s" % (pr[3], "differs" if differ else ("findings" if res["A"] else "clean")))
-        if len(run.samples) < 12 and pr is not G.WITNESS and res["A"] and shown < 2:
+        if len(run.samples) < 12 and not pr[3].startswith("witness") and res["A"] and shown < 2:
             shown += 1
             run.samples.append({"stream": name, "case": {"files": pr[0], "options": pr[2]}, "model": {m: sorted(v) for m, v in res.items()}})
         if not differ:
@@ -241,11 +271,23 @@ def x2(run, quick, rng, namesok):
             else:
                 run.violation("modes-static:" + h, "staticFunction findings differ between in-memory and build-dir modes", rep)
         if G.differs(rest):
-            if namesok is not True and G.explained_by_nested_drop(rest):
+            if G.explained_by_lossy_toxml(pr, rest):
+                run.violation(KEY_LOSSY, "ErrorLogger::toxml replaces every byte > 0x7f by 'x': a stored file name like \xc3\xa4.c comes back as xx.c, "
+                              "so the call stack of a whole-program finding names a different file with a build dir", rep)
+            elif not ids_escaped and G.explained_by_unescaped_id(pr, rest):
+                run.violation(KEY_UNESC, "function ids are written into the analyzer info without XML escaping: a '\"' in a header name makes the file unloadable "
+                              "and all whole-program findings are lost with a build dir (internalError: failed to load ...)", rep)
+            elif namesok is not True and G.explained_by_nested_drop(rest):
                 run.violation(KEY_NESTED, "whole-program findings through a forwarding function are reported without a build dir and lost with one "
                               "(NestedCall::toXmlString writes <function-call>, the loader expects <nested-call>)", rep)
-            else:
+            elif unexplained[0] < 3:
+                unexplained[0] += 1
                 run.violation("modes:" + h, "whole-program findings differ between in-memory and build-dir modes", rep)
+            else:
+                unexplained[0] += 1
+
+
+    run.extra["projects_with_unexplained_difference"] = unexplained[0]
 
 
 def report(run, stream, diffs, cmd):
